@@ -50,6 +50,12 @@ def family(rp):
     f.add("field-missing", V + "print(V(1).y)", "reject")
     f.add("field-existing", V + "print(V(1).x)", clean)
     f.add("field-used-as-other-type", V + "def s: Str := V(1).x", "reject")
+    f.add("method-call-tuple-argument", "class Acc\n    def total: Int := 0\n    def add(self, amount: Int) -> Int => self.total + amount\ndef a := Acc()\nprint(a.add((5, 6)))", "reject")
+    f.add("operator-tuple-operand", "def x: Int := 3\ndef pair := (1, 2)\nprint(x - pair)", "reject")
+    f.add("one-branch-only-in-function", "def f(c: Bool) -> Int =>\n    if c then\n        def y := 1\n    y + 1\nprint(f(False))", "reject")
+    f.add("else-branch-only", "if True then\n    print(1)\nelse\n    def x := 2\nprint(x)", "reject")
+    f.add("defined-in-while", "while False do\n    def x := 1\nprint(x)", "reject")
+    f.add("loop-variable-after", "for i in [1] do\n    print(i)\nprint(i)", "reject")
     f.add("call-wrong-argument-type", "def f(a: Int) -> Int => a + 1\nprint(f(\"s\"))", "reject")
     f.add("call-conforming", "def f(a: Int) -> Int => a + 1\nprint(f(2))", clean)
     f.add("call-missing-argument", "def f(a: Int) -> Int => a + 1\nprint(f())", "reject")
@@ -80,10 +86,11 @@ def run(run):
             f(run, mir, rp, fam)
         except Unsupported as e:
             run.ob(f.__name__[3:] + "-encoding", "E2", "kernel is encodable").inconclusive(f"unsupported construct: {e}")
-    try:
-        C09.ob_lookup(run, mir, rp, fam)
-    except Unsupported as e:
-        run.ob("lookup-encoding", "E2", "kernel is encodable").inconclusive(f"unsupported construct: {e}")
+    for f in (C09.ob_lookup, C09.ob_flow):
+        try:
+            f(run, mir, rp, fam)
+        except Unsupported as e:
+            run.ob(f.__name__[3:] + "-encoding", "E2", "kernel is encodable").inconclusive(f"unsupported construct: {e}")
     if run.clean():
         e2.validate_family(run, fam, "runtime-errors")
     rp.close()
